@@ -2,7 +2,8 @@
   Model of (Schema).MarshalJSON, orderedProperties.MarshalJSON (schema.go:236-378) and
   marshalStructWithMap (util.go:320-357) on the store: the ordered JSON value whose text
   encoding/json writes.  Emission order = wrapper-struct fields (type, properties, dependencies,
-  items) then the tagged Schema fields in declaration order, then Extra with sorted keys.
+  items, enum, anyOf, oneOf, $vocabulary) then the remaining tagged Schema fields in declaration order,
+  then Extra with sorted keys.
   `omitempty` exactly as encoding/json defines emptiness per Go type.
 -/
 import JSV.Model.Schema
@@ -33,7 +34,7 @@ def orderedKeys {α : Type} (props : List (String × α)) (order : List String) 
 
 /-- JSON names that the wrapper struct or a tagged Schema field marshals to (jsonNames of the wrapper) -/
 def structNames : List String := [
-  "type", "properties", "dependencies", "items", "enum", "anyOf", "oneOf",
+  "type", "properties", "dependencies", "items", "enum", "anyOf", "oneOf", "$vocabulary",
   "$id", "$schema", "$ref", "$comment", "$defs", "definitions", "$anchor", "$dynamicAnchor", "$dynamicRef",
   "$vocabulary", "title", "description", "default", "deprecated", "readOnly", "writeOnly", "examples",
   "enum", "const", "multipleOf", "minimum", "maximum", "exclusiveMinimum", "exclusiveMaximum",
@@ -175,9 +176,10 @@ def marshalStep (st : Store) (rec : MRec) (id : NodeId) : Res Json :=
     Res.bind (one "else" n.else_) fun else_ =>
     Res.bind (keyed "dependentSchemas" n.dependentSchemas) fun dependentSchemas =>
     Res.bind (one "contentSchema" n.contentSchema) fun contentSchema =>
+    -- routed through the wrapper struct (`Vocabulary any`): only nil is omitted, an empty map is written as {}
     let vocab := match n.vocabulary with
-      | some (v :: vs) => [("$vocabulary", Json.obj (sortKV ((v :: vs).map fun (k, b) => (k, Json.bool b))))]
-      | _ => []
+      | some vs => [("$vocabulary", Json.obj (sortKV (vs.map fun (k, b) => (k, Json.bool b))))]
+      | none => []
     let depReq := match n.dependentRequired with
       | some (v :: vs) => [("dependentRequired", Json.obj (sortKV ((v :: vs).map fun (k, l) => (k, optStrs l))))]
       | _ => []
@@ -190,12 +192,11 @@ def marshalStep (st : Store) (rec : MRec) (id : NodeId) : Res Json :=
       | _ => []
     let members :=
       typ ++ props ++ mem "dependencies" deps ++ items ++
-      -- enum / anyOf / oneOf go through the wrapper struct: only nil is omitted
-      mem "enum" (n.enum.map fun l => sortJson (.arr l)) ++ anyOf ++ oneOf ++
+      -- enum / anyOf / oneOf / $vocabulary go through the wrapper struct: only nil is omitted
+      mem "enum" (n.enum.map fun l => sortJson (.arr l)) ++ anyOf ++ oneOf ++ vocab ++
       mStr "$id" n.id ++ mStr "$schema" n.schema ++ mStr "$ref" n.ref ++ mStr "$comment" n.comment ++
       defs ++ definitions ++
       mStr "$anchor" n.anchor ++ mStr "$dynamicAnchor" n.dynamicAnchor ++ mStr "$dynamicRef" n.dynamicRef ++
-      vocab ++
       mStr "title" n.title ++ mStr "description" n.description ++ mem "default" n.default ++
       mBool "deprecated" n.deprecated ++ mBool "readOnly" n.readOnly ++ mBool "writeOnly" n.writeOnly ++
       nonEmptyList "examples" n.examples ++
